@@ -178,10 +178,14 @@ class SSHConfig:
         """
         # uncomment next line and handle global patterns (stuff before hosts) at some point
         # global_config_pattern = re.compile(r"^.*?\b(?=host)", flags=re.I | re.S)
-        # use word boundaries with a positive lookahead to get everything between the word host
-        # need to do this as whitespace/formatting is not really a thing in ssh_config file
-        # match host\s to ensure we don't pick up hostname and split things there accidentally
-        host_pattern = re.compile(r"\bhost.*?\b(?=host\s|\s+$|$)", flags=re.I | re.S)
+        # a host entry starts at a line beginning with the `Host` keyword and runs up to the next
+        # such line (or the trailing whitespace/end of the file); only look for the keyword at the
+        # start of a line so that "host" inside of a host name, a value or a comment does not split
+        # the entry, and match host[ \t=] to ensure we don't pick up hostname and split things
+        # there accidentally
+        host_pattern = re.compile(
+            r"^[ \t]*host[ \t=].*?(?=^[ \t]*host[ \t=]|\s*\Z)", flags=re.I | re.S | re.M
+        )
         host_entries = re.findall(pattern=host_pattern, string=self.ssh_config)
 
         discovered_hosts: Dict[str, Host] = {}
